@@ -1,107 +1,159 @@
-"""C20 - using a component by reference is equivalent to writing it inline (resolver convergence)."""
+"""C20 - using a component by reference is equivalent to writing it inline (resolver convergence).
+
+Every rule is stated on roles and paths, not on today's shape of the code:
+  * variables are found by what they are bound from (the loop over `data.parameters`, the result of the resolver, the result of
+    `urlparse`, the value looked up in a component table), never by their spelling;
+  * "the reference branch" is the set of statements that can only execute when the reference test holds (CFG with the edge into
+    the other arm removed), so early return / nested if / inverted test with swapped arms are the same thing;
+  * guards are evaluated as truth tables over their atoms (`any((a, b))` is `a or b`, a boolean local reads as its definition);
+  * mechanisms are searched in the region (the function plus the private helpers it delegates to).
+"""
 from __future__ import annotations
 
 import ast
-from typing import Any
+import copy
+import itertools
+from typing import Any, Callable, Iterable
 
-from ..astutil import Locals, bool_atoms, call_name, cfg_of, error_names, norm, returns_error, short, stmt_calls, where
-from ..cfg import CFG
+from ..astutil import (ERROR_CLASSES, ERROR_ONLY_HELPERS, Locals, bool_eval, call_name, calls_in, cfg_of, error_names, names_in, norm,
+                       region, returns_error, role_anon, short, truth_table, where)
+from ..cfg import CFG, ENTRY, EXIT, walk_own
 from ..core import Report
+from ..pyindex import FuncInfo, dotted
 
-LEVEL = ("resolver convergence only (output equality of two runs is not decided): for parameters, request bodies and responses "
-         "the reference branch ends by rebinding the variable the inline branch uses, changes no other input of the following "
-         "code, and the loop that follows a chain tests the current link; the field-by-field copy of a component parameter covers "
-         "every attribute read downstream; every reference string goes through parse_reference_path, whose rejection covers every "
-         "non-fragment component; lookup misses return errors; a schema reference evolves only name/required/python_name/default.")
+LEVEL = ("resolver convergence only (output equality of two runs is not decided): for responses the statements that only run for a "
+         "reference hand exactly one variable (the resolved component) to the shared code, which never asks again whether it was a "
+         "reference; the raw parameter / request body flows only into its resolver and an error result leaves before the shared "
+         "code reads the component; the chain loop reads nothing that is a stale snapshot of a variable it advances; the "
+         "field-by-field copy of a component parameter covers every attribute read downstream; every reference string goes "
+         "through parse_reference_path, on whose accepting paths every non-fragment URL component is empty; lookup misses return "
+         "errors; a schema reference evolves only name/required/python_name/default and records the dependency.")
+
+URL_FIELDS = ("scheme", "netloc", "path", "params", "query", "fragment")  # field order of urllib.parse.ParseResult
+USE_SITE_ATTRS = {"required", "name", "python_name", "default"}
 
 
 def run(rep: Report, ctx: Any) -> str:
     ix = ctx.py
-    it, ji = ctx.flow
     cfgs: dict[str, CFG] = {}
-    rep.rule("R20.1", "resolvers converge: inside the reference branch only the resolved variable (and locals of the branch) are "
-                      "assigned - no parameter that the shared code reads later; chain-following loops test the current link")
+    rep.rule("R20.1", "resolvers converge: the statements that only run for a reference hand over exactly the resolved variable to the "
+                      "shared code (no other input of it is changed) and the shared code does not test for references again; the raw "
+                      "parameter / request body is only ever passed to its resolver, whose error result leaves before the component is "
+                      "read; chain-following loops read the current link, not a snapshot taken before the loop")
     rep.rule("R20.2", "parameter_from_data copies every Parameter attribute that is read downstream")
     rep.rule("R20.3", "every .ref consumer validates through parse_reference_path (or follows a name-keyed component table with a "
-                      "cycle guard); the validator rejects every non-fragment URL component; lookup misses return errors")
+                      "cycle guard); on every accepting path of the validator every non-fragment URL component is empty; lookup misses "
+                      "return errors")
     rep.rule("R20.4", "one class per schema: a reference evolves only required/name/python_name/default of the registered object and "
                       "records the dependency")
 
-    # ---- R20.1 -----------------------------------------------------------------------------------------------------
+    # ---- R20.1 responses ---------------------------------------------------------------------------------------------
     rfd = ix.func("responses.response_from_data")
-    params = {p.arg for p in rfd.params}
-    branch = next((n for n in ast.walk(rfd.node) if isinstance(n, ast.If) and "isinstance(data, oai.Reference)" in norm(n.test)), None)
-    rep.require(branch, "reference branch in response_from_data")
-    assigned = set()
-    for s in branch.body:
-        for n in ast.walk(s):
-            if isinstance(n, (ast.Assign, ast.AugAssign, ast.AnnAssign)):
-                tgts = n.targets if isinstance(n, ast.Assign) else [n.target]
-                for t in tgts:
-                    for x in ast.walk(t):
-                        if isinstance(x, ast.Name) and isinstance(x.ctx, ast.Store):
-                            assigned.add(x.id)
-    leak = sorted((assigned & params) - {"data"})
-    rep.check("data" in assigned and not leak, "R20.1", "response_from_data::reference-branch-rebinds-only-data",
-              f"the reference branch also changes {leak}: a referenced response no longer takes the same path as an inline one (e.g. "
-              "inline models get another name, later operations collide)", where(rfd, branch), lhs=sorted(assigned), rhs="{data} + branch locals")
-    after = [n for n in ast.walk(rfd.node) if isinstance(n, ast.Call) and call_name(n) == "isinstance" and "Reference" in norm(n)
-             and getattr(n, "lineno", 0) > branch.end_lineno]
-    rep.check(not after, "R20.1", "response_from_data::no-later-reference-test", "code after the resolution still distinguishes references",
-              where(rfd, rfd.node))
+    cfg = cfg_of(rfd, cfgs)
+    subjects = {"data"} | _aliases(Locals(rfd.node), {"data"})
+    branches = [(s, arm) for s in cfg.stmts() if isinstance(s, ast.If) for arm in _implied_arms(s.test, lambda a: _is_reference_test(a, subjects))]
+    rep.require(branches, "reference test on `data` in response_from_data")
+    ref_only = _only_via(cfg, branches)
+    rep.require(ref_only, "statements that only run for a referenced response")
+    after: set[object] = set()
+    for s in ref_only:
+        after |= {n for n in cfg.reachable_from(s) if isinstance(n, ast.stmt) and n not in ref_only}
+    assigned = set().union(*[_stores(s) for s in ref_only])
+    read_after = set().union(*[_loads(s) for s in after]) if after else set()
+    handed = assigned & read_after
+    # the variable through which the resolved response reaches the shared code: `data` itself, or a local that is bound to plain
+    # `data` wherever it is bound outside the reference-only statements
+    lc = Locals(rfd.node)
+    carriers = {"data"} | {n for n, ds in lc.defs.items() if any(st not in ref_only for _, st, _ in ds) and
+                           all(isinstance(v, ast.Name) and v.id == "data" for _, st, v in ds if st not in ref_only)}
+    leak = sorted(handed - carriers)
+    rep.check(bool(handed & carriers) and not leak, "R20.1", "response_from_data::reference-branch-rebinds-only-data",
+              f"the reference branch also changes {leak}, which the shared code reads: a referenced response no longer takes the same path "
+              "as an inline one (e.g. inline models get another name, later operations collide)" if leak else
+              "the reference branch does not hand the resolved response to the shared code", where(rfd, branches[0][0]),
+              lhs=sorted(handed), rhs="only the resolved response (`data`)")
+    later = [n for s in after for n in walk_own(s) if _is_reference_test(n, subjects | (handed & carriers)) is not None]
+    rep.check(not later, "R20.1", "response_from_data::no-later-reference-test", "code after the resolution still distinguishes references",
+              where(rfd, later[0] if later else rfd.node))
+
+    # ---- R20.1 parameters ------------------------------------------------------------------------------------------------
     ap = ix.func("Endpoint.add_parameters")
-    # the resolved parameter (any spelling) is tested for being an error and then rebound to the loop variable itself, so that the
-    # code below the resolution is shared by inline and referenced parameters
-    ploops = [n for n in ast.walk(ap.node) if isinstance(n, ast.For) and norm(n.iter) == "data.parameters"]
-    rep.require(ploops, "loop over data.parameters")
-    pv = norm(ploops[0].target)
-    al = Locals(ap.node)
-    resolved = set(al.bound_from(lambda v: v == f"parameter_from_reference(param={pv}, parameters=parameters)", "assign"))
-    rebind = [s_ for s_ in ploops[0].body if isinstance(s_, ast.Assign) and norm(s_.targets[0]) == pv and norm(s_.value) in resolved]
-    errchk = [s_ for s_ in ploops[0].body if isinstance(s_, ast.If) and any(norm(s_.test) == f"isinstance({r_}, ParseError)" for r_ in resolved)
-              and any(isinstance(x, ast.Return) for x in s_.body)]
-    direct = [s_ for s_ in ploops[0].body if isinstance(s_, ast.Assign) and norm(s_.targets[0]) == pv and norm(s_.value).startswith("parameter_from_reference(")]
-    rep.check((bool(rebind) and bool(errchk) and ploops[0].body.index(errchk[0]) < ploops[0].body.index(rebind[0])) or bool(direct), "R20.1",
-              "Endpoint.add_parameters::resolves-then-rebinds", "a referenced parameter is not rebound to the loop variable before the shared code",
-              where(ap, ap.node))
-    rr = ix.func("bodies._resolve_reference")
-    loops = [n for n in ast.walk(rr.node) if isinstance(n, ast.While)]
-    rep.require(loops, "chain loop in _resolve_reference")
-    lp = loops[0]
-    assigned_in_loop = {x.id for s in lp.body for n in ast.walk(s) if isinstance(n, (ast.Assign, ast.AugAssign))
-                        for t in (n.targets if isinstance(n, ast.Assign) else [n.target]) for x in ast.walk(t) if isinstance(x, ast.Name)}
-    roots_in_test = set()
-    for n in ast.walk(lp.test):
-        if isinstance(n, ast.Name) and isinstance(n.ctx, ast.Load):
-            roots_in_test.add(n.id)
-    # names that denote the visited collection / types are not links
-    collections = {c.func.value.id for s in lp.body for c in ast.walk(s) if isinstance(c, ast.Call) and isinstance(c.func, ast.Attribute)
-                   and c.func.attr in ("append", "add") and isinstance(c.func.value, ast.Name)}
-    links = {n for n in roots_in_test if n not in collections and n not in ("oai", "isinstance")}
-    stale = sorted(links - assigned_in_loop)
-    rep.check(not stale, "R20.1", "_resolve_reference::tests-current-link",
-              f"the chain loop tests {stale}, which the loop never updates: only the first link is ever examined (longer chains are misreported)",
-              where(rr, lp), lhs=norm(lp.test), rhs=f"all of {sorted(links)} updated in the body ({sorted(assigned_in_loop)})")
+    pcls = ix.cls("Parameter")
+    pfields = set(ix.all_fields(pcls))
+    raw_reads: list[tuple[FuncInfo, ast.Name]] = []
+    n_iter = 0
+    for g in region(ix, ap):
+        glc = Locals(g.node)
+        for name, ds in glc.defs.items():
+            for kind, st, v in ds:
+                if kind == "for" and v is not None and _denotes(v, glc, "data.parameters"):
+                    n_iter += 1
+                    if isinstance(st, ast.comprehension):
+                        raw_reads += [(g, x) for x in _comprehension_reads(g.node, st, name)]
+                    else:
+                        raw_reads += [(g, x) for _, x in _reached_reads(cfg_of(g, cfgs), st, name)]
+    rep.require(n_iter, "iteration over data.parameters in the region of add_parameters")
+    not_resolved = [norm(_direct_arg_of(g.node, x) or x)[:60] for g, x in raw_reads if not _is_call_to(_direct_arg_of(g.node, x), {"parameter_from_reference"})]
+    # the resolver's result: tested for being an error on every path to a read of a Parameter attribute
+    gate_ok, attr_reads, n_resolve, ungated = _gated_uses(ix, ap, cfgs, {"parameter_from_reference"}, pfields)
+    rep.require(n_resolve, "statement binding the result of parameter_from_reference in the region of add_parameters")
+    rep.check(bool(raw_reads) and not not_resolved and gate_ok, "R20.1", "Endpoint.add_parameters::resolves-then-rebinds",
+              (f"the raw item of data.parameters is used without being resolved ({not_resolved}): " if not_resolved else "") +
+              (f"attributes of the resolver's result are read on a path that does not leave on an error result ({ungated}): " if not gate_ok else "") +
+              "a referenced parameter does not reach the shared code as the resolved component", where(ap, ap.node),
+              lhs=not_resolved + ungated, rhs="raw item -> parameter_from_reference only; error result returns first")
+
+    # ---- R20.1 request bodies ----------------------------------------------------------------------------------------------
     bfd = ix.func("bodies.body_from_data")
-    res_l = set(Locals(bfd.node).bound_from(lambda v: v == "_resolve_reference(data.request_body, request_bodies)", "assign"))
-    raw_reads = [n for n in ast.walk(bfd.node) if isinstance(n, ast.Attribute) and norm(n) == "data.request_body"]
-    rep.check(bool(res_l) and len(raw_reads) == 1, "R20.1", "body_from_data::resolves-first",
-              "the request body is not resolved before the shared code", where(bfd, bfd.node))
+    chains: list[tuple[FuncInfo, ast.stmt]] = []
+    for g in region(ix, bfd):
+        for lp in ast.walk(g.node):
+            if isinstance(lp, (ast.While, ast.For)) and any(_is_table(x, "request_bodies") for part in [*lp.body, *([lp.test] if isinstance(lp, ast.While) else [])]
+                                                            for x in ast.walk(part)):
+                chains.append((g, lp))
+    rep.require(chains, "loop that follows request-body references through `request_bodies` in the region of body_from_data")
+    stale_all: list[str] = []
+    for g, lp in chains:
+        stale_all += _stale_snapshot_reads(g.node, lp)
+    rep.check(not stale_all, "R20.1", "_resolve_reference::tests-current-link",
+              f"the chain loop reads {sorted(set(stale_all))}, computed before the loop from a variable the loop advances and never refreshed: only "
+              "the first link is ever examined (longer chains are misreported)", where(chains[0][0], chains[0][1]),
+              lhs=sorted(set(stale_all)), rhs="values derived from the link are recomputed inside the loop")
+    chain_fns = {g for g, _ in chains}
+    resolvers = {h.name for h in region(ix, bfd) if h is not bfd and any(c in region(ix, h) for c in chain_fns)}
+    blc = Locals(bfd.node)
+    raw_body = [n for n in ast.walk(bfd.node) if isinstance(n, ast.Attribute) and isinstance(n.ctx, ast.Load) and norm(n) == "data.request_body"]
+    rep.require(raw_body, "read of data.request_body in body_from_data")
+    unresolved: list[str] = []
+    n_res = 0
+    carried_here = set().union(*[_carried(lp) for g, lp in chains if g is bfd]) if bfd in chain_fns else set()
+    for n in raw_body:
+        call = _direct_arg_of(bfd.node, n)
+        if _is_call_to(call, resolvers):
+            n_res += 1
+            continue
+        bound = [(nm, st) for nm, ds in blc.defs.items() for k, st, v in ds if v is n and k == "assign"]
+        if not bound:
+            unresolved.append(norm(call or n)[:60])
+        for nm, st in bound:
+            for _, x in _reached_reads(cfg_of(bfd, cfgs), st, nm):
+                if _is_call_to(_direct_arg_of(bfd.node, x), resolvers) or nm in carried_here:
+                    n_res += 1
+                else:
+                    unresolved.append(norm(_direct_arg_of(bfd.node, x) or x)[:60])
+    rep.check(n_res > 0 and not unresolved, "R20.1", "body_from_data::resolves-first",
+              f"the request body is used without being resolved ({unresolved}): the shared code sees the reference itself", where(bfd, bfd.node),
+              lhs=unresolved, rhs="data.request_body flows only into the chain resolver")
 
     # ---- R20.2 ----------------------------------------------------------------------------------------------------------
     pfd = ix.func("schemas.parameter_from_data")
-    copied = set()
-    for c in ast.walk(pfd.node):
-        if isinstance(c, ast.Call) and call_name(c) == "Parameter":
-            copied |= {k.arg for k in c.keywords if k.arg}
+    copied: set[str] = set()
+    for g in region(ix, pfd):
+        for c in calls_in(g.node):
+            if call_name(c).rsplit(".", 1)[-1] == "Parameter":
+                copied |= {k.arg for k in c.keywords if k.arg}
     rep.require(copied, "Parameter(...) copy in parameter_from_data")
-    read = set()
-    pcls = ix.cls("Parameter")
-    pfields = set(ix.all_fields(pcls))
-    for f in (ap, ix.func("PropertyProtocol.validate_location")):
-        for n in ast.walk(f.node):
-            if isinstance(n, ast.Attribute) and isinstance(n.value, ast.Name) and n.value.id == pv and f is ap and n.attr in pfields:
-                read.add(n.attr)
+    read = set(attr_reads)
     rep.check(read <= copied, "R20.2", "parameter_from_data::copies-what-is-read",
               f"attributes {sorted(read - copied)} of a parameter are read by add_parameters but not copied for component parameters", where(pfd, pfd.node),
               lhs=sorted(read), rhs=sorted(copied))
@@ -109,22 +161,42 @@ def run(rep: Report, ctx: Any) -> str:
 
     # ---- R20.3 -------------------------------------------------------------------------------------------------------------
     prp = ix.func("schemas.parse_reference_path")
-    tests = [n for n in ast.walk(prp.node) if isinstance(n, ast.If) and any(returns_error(r, set()) for r in n.body if isinstance(r, ast.stmt))]
-    rep.require(tests, "rejection test in parse_reference_path")
     pl = Locals(prp.node)
-    parsed = pl.one(lambda v: v.startswith("urlparse("), "assign")
-    rep.require(parsed, "urlparse(...) result in parse_reference_path")
-    atoms = {a.replace(f"{parsed}.", "parsed.") if a.startswith(f"{parsed}.") else a for a in bool_atoms(tests[0].test)}
+    fields_of: dict[str, str] = {}  # local name -> the URL component it holds (tuple-unpacked urlparse result)
+    parsed_names: set[str] = set()
+    for name, ds in pl.defs.items():
+        for kind, _, v in ds:
+            if v is not None and isinstance(v, ast.Call) and call_name(v).rsplit(".", 1)[-1] in ("urlparse", "urlsplit"):
+                if kind == "assign":
+                    parsed_names.add(name)
+                elif kind.startswith("assign[") and kind[7:-1].isdigit() and int(kind[7:-1]) < len(URL_FIELDS):
+                    fields_of[name] = URL_FIELDS[int(kind[7:-1])]
+    rep.require(parsed_names or fields_of or any(call_name(c).rsplit(".", 1)[-1] in ("urlparse", "urlsplit") for c in calls_in(prp.node)),
+                "urlparse(...) result in parse_reference_path")
+    expand = _Expander(pl, parsed_names, fields_of)
+    paths: list[tuple[list[tuple[ast.expr, bool]], ast.expr | None, ast.Return]] = []
+    _return_paths(prp.node.body, [], paths, expand)
+    errs = error_names(prp.node)
+    accepting = [(cond, val, r) for cond, val, r in paths if not _is_error_value(val, errs)]
+    rep.require(accepting, "accepting (non-error) return in parse_reference_path")
+    rep.require(len(accepting) < len(paths), "rejection (error return) in parse_reference_path")
+    may_be_set: set[str] = set()
+    opaque: set[str] = set()
+    for cond, _, _ in accepting:
+        ms, op = _possibly_true(cond, [f"parsed.{f}" for f in URL_FIELDS[:5]])
+        may_be_set |= ms
+        opaque |= op
     need = {"parsed.scheme", "parsed.path"}
-    rep.check(need <= atoms and isinstance(tests[0].test, ast.BoolOp) and isinstance(tests[0].test.op, ast.Or), "R20.3",
-              "parse_reference_path::rejects-scheme-and-path",
-              f"the validator no longer rejects references with a {sorted(need - atoms)} component: `other.yaml#/components/schemas/X` is bound "
-              "to the local component of the same name", where(prp, tests[0]), lhs=sorted(atoms), rhs=sorted(need))
-    full = {"parsed.scheme", "parsed.netloc", "parsed.path", "parsed.params", "parsed.query"}
-    rep.check(full <= atoms, "R20.3", "parse_reference_path::rejects-every-non-fragment-component",
-              f"references with only a {sorted(full - atoms - need)} component (e.g. `//host#/components/schemas/X`, `?q#/components/schemas/X`) "
-              "are accepted and bound to the local component", where(prp, tests[0]), lhs=sorted(atoms), rhs=sorted(full))
-    rep.check(any(isinstance(r, ast.Return) and f"{parsed}.fragment" in norm(r) for r in ast.walk(prp.node)), "R20.3",
+    full = {f"parsed.{f}" for f in URL_FIELDS[:5]}
+    # a guard whose atoms this rule cannot read (not a URL component of the parsed reference) is not a verdict
+    rep.require(not (may_be_set and opaque), f"decidable rejection condition in parse_reference_path (unreadable atoms {sorted(opaque)[:4]})")
+    rep.check(not (need & may_be_set), "R20.3", "parse_reference_path::rejects-scheme-and-path",
+              f"the validator no longer rejects references with a {sorted(need & may_be_set)} component: `other.yaml#/components/schemas/X` is bound "
+              "to the local component of the same name", where(prp, accepting[0][2]), lhs=sorted(full - may_be_set), rhs=sorted(need))
+    rep.check(not (full & may_be_set), "R20.3", "parse_reference_path::rejects-every-non-fragment-component",
+              f"references with only a {sorted((full & may_be_set) - need)} component (e.g. `//host#/components/schemas/X`, `?q#/components/schemas/X`) "
+              "are accepted and bound to the local component", where(prp, accepting[0][2]), lhs=sorted(full - may_be_set), rhs=sorted(full))
+    rep.check(all(val is not None and "parsed.fragment" in {norm(x) for x in ast.walk(expand(val))} for _, val, _ in accepting), "R20.3",
               "parse_reference_path::returns-fragment", "the validated path is not the fragment", where(prp, prp.node))
     # every `.ref` read in the parser goes through the validator (or the body chain, or is diagnostic text)
     n_ref = 0
@@ -136,48 +208,194 @@ def run(rep: Report, ctx: Any) -> str:
                 n_ref += 1
                 par = _enclosing_call(f.node, n)
                 kind = None
-                if par is not None and call_name(par) == "parse_reference_path":
+                if par is not None and call_name(par).rsplit(".", 1)[-1] == "parse_reference_path":
                     kind = "validated"
-                elif par is not None and call_name(par).endswith("endswith"):
+                elif par is not None and isinstance(par.func, ast.Attribute) and par.func.attr == "endswith" and par.func.value is n:
                     kind = "classification of an error already raised"
-                elif f.name == "_resolve_reference":
+                    suffix = par.args[0] if par.args else None
+                    rep.check(suffix is not None and _anchored_suffix(suffix, f, Locals(f.node)), "R20.3", f"{short(f)}::{role_anon(n, f.node)}::suffix-anchored",
+                              "a reference string is matched against a bare name suffix: a reference to a component whose name merely ends "
+                              "with that name is taken for it (a valid reference is reported as circular)", where(f, par),
+                              lhs=norm(suffix)[:60] if suffix is not None else None, rhs="suffix starting with '/' or a validated reference path")
+                elif f in chain_fns:
                     kind = "request-body chain (name-keyed table, cycle guard R06.4)"
-                elif _in_fstring_or_error(f.node, n):
+                elif _in_diagnostic(f.node, n):
                     kind = "diagnostic text"
-                rep.check(kind is not None, "R20.3", f"{short(f)}::{norm(n)}", "a reference string is used without validation", where(f, n),
+                rep.check(kind is not None, "R20.3", f"{short(f)}::{role_anon(n, f.node)}", "a reference string is used without validation", where(f, n),
                           lhs=norm(par)[:60] if par is not None else None, rhs="parse_reference_path(...)")
     rep.floor("reference_reads", n_ref, 8)
     # lookup misses return errors
-    for fname, key in (("properties._property_from_ref", "classes_by_reference.get("), ("schemas.parameter_from_reference", "classes_by_reference.get("),
-                       ("responses.response_from_data", "responses.get(")):
+    for fname, table in (("properties._property_from_ref", "classes_by_reference"), ("schemas.parameter_from_reference", "classes_by_reference"),
+                         ("responses.response_from_data", "responses")):
         f = ix.func(fname)
-        cfg = cfg_of(f, cfgs)
-        errs = error_names(f.node)
-        got = set(Locals(f.node).bound_from(lambda v, key=key: key in v, "assign"))
-        # the looked-up value (any spelling) is tested for a miss and the miss returns an error
-        ok = bool(got) and any(isinstance(s, ast.If) and any(norm(s.test) in (f"not {g}", f"{g} is None") for g in got) and
-                               any(returns_error(r, errs) for r in ast.walk(s) if isinstance(r, ast.stmt)) for s in cfg.stmts())
+        located = False
+        ok = False
+        for g in region(ix, f):
+            lookups = [n for n in ast.walk(g.node) if _is_lookup(n, table)]
+            if not lookups:
+                continue
+            located = True
+            gcfg = cfg_of(g, cfgs)
+            gerrs = error_names(g.node)
+            got = {nm for nm, ds in Locals(g.node).defs.items() for k, _, v in ds if k == "assign" and v is not None and any(_is_lookup(x, table) for x in ast.walk(v))}
+            miss = [(s, arm) for s in gcfg.stmts() if isinstance(s, ast.If) for arm in _implied_arms(s.test, lambda a, got=got: _missing_when(a, got, table))]
+            here = any(_arm_ends_in_error(gcfg, s, arm, gerrs) for s, arm in miss)
+            if here and g is not f:
+                # the helper's error result leaves the caller as an error, too
+                helpers = {h.name for h in region(ix, f) if h is not f and g in region(ix, h)}
+                here = _gated_uses(ix, f, cfgs, helpers, set(), own_only=True)[0]
+            ok = ok or here
+        rep.require(located, f"lookup in `{table}` in the region of {fname}")
         rep.check(ok, "R20.3", f"{short(f)}::lookup-miss-is-error", "a dangling reference does not produce an error value", where(f, f.node))
 
     # ---- R20.4 ---------------------------------------------------------------------------------------------------------------
     pfr = ix.func("properties._property_from_ref")
-    ev = [c for c in ast.walk(pfr.node) if isinstance(c, ast.Call) and call_name(c).endswith("evolve")]
-    rep.require(ev, "evolve in _property_from_ref")
-    for c in ev:
-        kws = {k.arg for k in c.keywords}
-        registered = set(Locals(pfr.node).bound_from(lambda v: v.startswith("schemas.classes_by_reference.get("), "assign"))
-        rep.check(norm(c.args[0]) in registered and kws <= {"required", "name", "python_name", "default"}, "R20.4",
-                  "_property_from_ref::evolves-only-use-site-attributes",
-                  f"a reference changes {sorted(kws - {'required', 'name', 'python_name', 'default'})} of the registered class: references "
-                  "to one schema no longer share one class", where(pfr, c), lhs=sorted(kws), rhs="required, name, python_name, default")
-    rep.check(bool([s for s in ast.walk(pfr.node) if isinstance(s, ast.Call) and call_name(s).endswith("add_dependencies")]), "R20.4",
-              "_property_from_ref::records-dependency", "dependency not recorded", where(pfr, pfr.node))
+    n_ev = 0
+    dep_sites: list[tuple[FuncInfo, ast.Call]] = []
+    for g in region(ix, pfr):
+        registered = {nm for nm, ds in Locals(g.node).defs.items() for k, _, v in ds
+                      if k == "assign" and v is not None and any(_is_lookup(x, "classes_by_reference") for x in ast.walk(v))}
+        for c in calls_in(g.node):
+            last = call_name(c).rsplit(".", 1)[-1]
+            if last == "add_dependencies":
+                dep_sites.append((g, c))
+            if last == "evolve" and c.args and isinstance(c.args[0], ast.Name) and c.args[0].id in registered:
+                n_ev += 1
+                kws = {k.arg for k in c.keywords}
+                rep.check(None not in kws and kws <= USE_SITE_ATTRS, "R20.4", "_property_from_ref::evolves-only-use-site-attributes",
+                          f"a reference changes {sorted(str(k) for k in kws - USE_SITE_ATTRS)} of the registered class: references "
+                          "to one schema no longer share one class", where(g, c), lhs=sorted(str(k) for k in kws), rhs="required, name, python_name, default")
+    rep.require(n_ev, "evolve of the registered class in the region of _property_from_ref")
+    # every path of _property_from_ref that returns a property (not an error) records the dependency
+    pcfg = cfg_of(pfr, cfgs)
+    perrs = error_names(pfr.node)
+    dep_helpers = {g.name for g, _ in dep_sites if g is not pfr}
+    records = lambda s: isinstance(s, ast.stmt) and any(call_name(c).rsplit(".", 1)[-1] in ({"add_dependencies"} | dep_helpers) for c in _own_calls(s))  # noqa: E731
+    good_returns = [s for s in pcfg.stmts() if isinstance(s, ast.Return) and not returns_error(s, perrs)]
+    unrecorded = [s for s in good_returns if not records(s) and not pcfg.every_path_passes(ENTRY, s, records)]
+    rep.check(bool(dep_sites) and bool(good_returns) and not unrecorded, "R20.4", "_property_from_ref::records-dependency",
+              "a path returns the referenced class without recording the dependency", where(pfr, unrecorded[0] if unrecorded else pfr.node))
+    # ---- R20.6 -------------------------------------------------------------------------------------------------------------
+    rep.rule("R20.6", "a referenced schema counts as processed however few members it has: no error is decided by the truth value of a "
+                      "lazily filled container field (None = not processed yet, empty = processed and empty)")
+    in_parser = [f for f in ix.all_functions if f.module.name.startswith("openapi_python_client.parser")]
+    late_set = {c.args[1].value for f in in_parser for c in calls_in(f.node) if call_name(c) in ("object.__setattr__", "setattr") and len(c.args) == 3
+                and isinstance(c.args[1], ast.Constant) and isinstance(c.args[1].value, str)}
+    lazy = {fld for c in ix.classes.values() if c.module.name.startswith("openapi_python_client.parser") for fld, ann in c.fields.items()
+            if fld in late_set and ann is not None and _optional_container(ann)}
+    rep.floor("lazily_filled_container_fields", len(lazy), 2)
+    n_dec = 0
+    for f in in_parser:
+        tests = [s_ for s_ in ast.walk(f.node) if isinstance(s_, ast.If) and any(isinstance(x, ast.Attribute) and x.attr in lazy for x in ast.walk(s_.test))]
+        if not tests:
+            continue
+        fcfg = cfg_of(f, cfgs)
+        ferrs = error_names(f.node)
+        for s_ in tests:
+            if s_ not in fcfg.succ:
+                continue  # nested function: analysed as its own function
+            n_dec += 1
+            by_truth = [a for a in _atom_nodes(s_.test) if _truth_of_field(a, lazy)]
+            decides_error = bool(by_truth) and any(_arm_ends_in_error(fcfg, s_, arm, ferrs) for arm in ("body", "orelse"))
+            rep.check(not decides_error, "R20.6", f"{short(f)}::decision[{','.join(sorted({x.attr for x in ast.walk(s_.test) if isinstance(x, ast.Attribute) and x.attr in lazy}))}]",
+                      f"an error is decided by the truth value of {[norm(a) for a in by_truth]}: a processed schema without members of its own "
+                      "(both lists empty) is treated as not processed, so everything that refers to it fails although the inline twin works",
+                      where(f, s_), lhs=norm(s_.test)[:80], rhs="`is None` / isinstance(..., list) on the lazily filled field")
+    # (a predicate helper that merely returns such a test is a decision site, too; it is counted, its callers are not followed)
+    n_dec += sum(1 for f in in_parser for r in ast.walk(f.node) if isinstance(r, ast.Return) and isinstance(r.value, (ast.BoolOp, ast.UnaryOp, ast.Compare, ast.Call))
+                 and any(isinstance(x, ast.Attribute) and x.attr in lazy for x in ast.walk(r.value)))
+    rep.floor("lazy_field_decisions", n_dec, 1)
+
+    # ---- R20.7 -------------------------------------------------------------------------------------------------------------
+    rep.rule("R20.7", "the document model decodes every position that may hold a reference through the discriminated ReferenceOr union: "
+                      "the class Reference occurs in a field type only inside an Annotated[...] that carries a Discriminator")
+    n_pos = 0
+    doc_model = [m for m in ix.modules.values() if m.name.startswith("openapi_python_client.schema")]
+    ref_types = {"Reference", "ReferenceOr"}  # ... and the module-level aliases built from them (`Responses = dict[str, ReferenceOr[Response]]`)
+    grown = True
+    while grown:
+        grown = False
+        for m in doc_model:
+            for owner, target, ann in _type_positions(m.tree):
+                if owner == "" and target not in ref_types and ref_types & {nm for nm, _ in _type_names(ann)}:
+                    ref_types.add(target)
+                    grown = True
+    for m in doc_model:
+        for owner, target, ann in _type_positions(m.tree):
+            mentions = _type_names(ann)
+            if not (ref_types & {nm for nm, _ in mentions}):
+                continue
+            n_pos += 1
+            bare = [nm for nm, discriminated in mentions if nm == "Reference" and not discriminated]
+            rep.check(not bare, "R20.7", f"{m.name.replace('openapi_python_client.', '')}.{owner}{target}::reference-through-discriminator",
+                      "a position that may hold a reference is declared as a plain union with Reference: pydantic's smart matching can decode "
+                      "a `$ref` with sibling keys as the other member, and the reference is lost without a diagnostic", f"{m.rel}:{getattr(ann, 'lineno', 0)}",
+                      lhs=norm(ann)[:80], rhs="ReferenceOr[...]")
+    rep.floor("reference_positions_in_document_model", n_pos, 20)
+
     from .c08 import check_no_alias
 
     rep.rule("R20.5", "a failing reference affects nothing else: the dependency registry does not alias the caller's roots set")
     check_no_alias(rep, ctx, "R20.5")
     rep.not_decided += ["equality of generated code for inline versus referenced components"]
     return LEVEL
+
+
+# ---- statements, names ----------------------------------------------------------------------------------------------------
+
+def _stores(st: object) -> set[str]:
+    """names (re)bound by the statement itself"""
+    if not isinstance(st, ast.stmt):
+        return set()
+    out = {n.id for n in walk_own(st) if isinstance(n, ast.Name) and isinstance(n.ctx, (ast.Store, ast.Del))}
+    if isinstance(st, (ast.With, ast.AsyncWith)):
+        out |= {n.id for i in st.items if i.optional_vars is not None for n in ast.walk(i.optional_vars) if isinstance(n, ast.Name)}
+    if isinstance(st, ast.ExceptHandler) and st.name:
+        out.add(st.name)
+    return out
+
+
+def _loads(st: object) -> set[str]:
+    return {n.id for n in walk_own(st) if isinstance(n, ast.Name) and isinstance(n.ctx, ast.Load)} if isinstance(st, ast.stmt) else set()
+
+
+def _own_calls(st: ast.stmt) -> Iterable[ast.Call]:
+    return [n for n in walk_own(st) if isinstance(n, ast.Call)]
+
+
+def _aliases(lc: Locals, roots: set[str]) -> set[str]:
+    """locals every binding of which is a plain copy of one of `roots` (transitively)"""
+    out: set[str] = set()
+    changed = True
+    while changed:
+        changed = False
+        for n, ds in lc.defs.items():
+            if n not in out and n not in roots and ds and all(k == "assign" and isinstance(v, ast.Name) and v.id in roots | out for k, _, v in ds):
+                out.add(n)
+                changed = True
+    return out
+
+
+def _denotes(e: ast.AST, lc: Locals, text: str, depth: int = 0) -> bool:
+    """the expression is `text`, or a local every binding of which is (wrappers such as list()/tuple()/sorted() aside are not followed)"""
+    if norm(e) == text:
+        return True
+    if isinstance(e, ast.Name) and depth < 3:
+        vs = lc.values_of(e.id)
+        return bool(vs) and all(k == "assign" for k, _, _ in lc.defs[e.id]) and all(_denotes(v, lc, text, depth + 1) for v in vs)
+    return False
+
+
+def _direct_arg_of(fn: ast.AST, node: ast.AST) -> ast.Call | None:
+    """the call of which `node` is directly an argument"""
+    for c in calls_in(fn):
+        if any(a is node for a in c.args) or any(k.value is node for k in c.keywords):
+            return c
+    return None
+
+
+def _is_call_to(c: ast.Call | None, names: set[str]) -> bool:
+    return c is not None and call_name(c).rsplit(".", 1)[-1] in names
 
 
 def _enclosing_call(fn: ast.AST, node: ast.AST) -> ast.Call | None:
@@ -188,8 +406,455 @@ def _enclosing_call(fn: ast.AST, node: ast.AST) -> ast.Call | None:
     return best
 
 
-def _in_fstring_or_error(fn: ast.AST, node: ast.AST) -> bool:
+def _in_diagnostic(fn: ast.AST, node: ast.AST) -> bool:
+    """inside an f-string or inside the construction of an error value"""
     for n in ast.walk(fn):
         if isinstance(n, ast.JoinedStr) and any(x is node for x in ast.walk(n)):
             return True
+        if isinstance(n, ast.Call) and call_name(n).rsplit(".", 1)[-1] in (ERROR_CLASSES | ERROR_ONLY_HELPERS) and any(x is node for x in ast.walk(n)):
+            return True
     return False
+
+
+# ---- guards as truth tables ---------------------------------------------------------------------------------------------------
+
+def _atom_nodes(e: ast.expr) -> Iterable[ast.expr]:
+    if isinstance(e, ast.BoolOp):
+        for v in e.values:
+            yield from _atom_nodes(v)
+    elif isinstance(e, ast.UnaryOp) and isinstance(e.op, ast.Not):
+        yield from _atom_nodes(e.operand)
+    else:
+        yield e
+
+
+def _implied_arms(test: ast.expr, literal: Callable[[ast.expr], bool | None]) -> set[str]:
+    """arms ('body' / 'orelse') of an `if test` on which the fact of interest is certain.  `literal(atom)` is the truth value of the
+    atom under which the fact holds (None: the atom says nothing about it); the fact is certain on an arm when, in every row of the
+    truth table that selects the arm, one of these atoms has that value."""
+    lits: dict[str, bool] = {}
+    for a in _atom_nodes(test):
+        v = literal(a)
+        if v is not None:
+            lits[norm(a)] = v
+    if not lits:
+        return set()
+    rows = list(truth_table(test))
+    out = set()
+    for arm, val in (("body", True), ("orelse", False)):
+        sel = [env for env, r in rows if r is val]
+        if sel and all(any(env[a] is pol for a, pol in lits.items()) for env in sel):
+            out.add(arm)
+    return out
+
+
+def _isinstance_of(a: ast.AST, subjects: set[str], cls_ok: Callable[[str], bool]) -> bool:
+    if not (isinstance(a, ast.Call) and call_name(a) == "isinstance" and len(a.args) == 2 and isinstance(a.args[0], ast.Name) and a.args[0].id in subjects):
+        return False
+    ks = a.args[1].elts if isinstance(a.args[1], ast.Tuple) else [a.args[1]]
+    return bool(ks) and all(cls_ok((dotted(k) or "").rsplit(".", 1)[-1]) for k in ks)
+
+
+def _is_reference_test(a: ast.AST, subjects: set[str]) -> bool | None:
+    return True if _isinstance_of(a, subjects, lambda k: k == "Reference") else None
+
+
+def _is_error_test(a: ast.AST, subjects: set[str]) -> bool | None:
+    return True if _isinstance_of(a, subjects, lambda k: k in ERROR_CLASSES) else None
+
+
+def _arm_edges(cfg: CFG, ifn: ast.If, arm: str) -> set[tuple[int, int]]:
+    """CFG edges that enter the given arm of the if (for an absent `else`: the fall-through edge of the test)"""
+    stmts = getattr(ifn, arm)
+    if stmts:
+        return {(id(ifn), id(stmts[0]))}
+    other = ifn.body if arm == "orelse" else ifn.orelse
+    return {(id(ifn), id(s)) for s in cfg.succ.get(ifn, ()) if not (other and s is other[0])}
+
+
+def _reach(cfg: CFG, starts: Iterable[object], cut: set[tuple[int, int]] = frozenset(), stop: Callable[[object], bool] | None = None) -> set[object]:
+    """nodes reachable from `starts` (inclusive) without using a `cut` edge and without continuing past a `stop` node"""
+    seen = set(starts)
+    stack = list(seen)
+    while stack:
+        n = stack.pop()
+        if stop is not None and stop(n):
+            continue
+        for s in cfg.succ.get(n, ()):
+            if s in seen or (id(n), id(s)) in cut:
+                continue
+            seen.add(s)
+            stack.append(s)
+    return seen
+
+
+def _only_via(cfg: CFG, branches: list[tuple[ast.If, str]]) -> set[object]:
+    """statements that execute only after one of the given arms has been entered"""
+    cut: set[tuple[int, int]] = set()
+    for s, arm in branches:
+        cut |= _arm_edges(cfg, s, arm)
+    free = _reach(cfg, [ENTRY], cut)
+    return {n for n in cfg.reachable_from(ENTRY) if isinstance(n, ast.stmt) and n not in free}
+
+
+def _arm_ends_in_error(cfg: CFG, ifn: ast.If, arm: str, errs: set[str]) -> bool:
+    """every way out of the function from the given arm is the return of an error value (or a raise)"""
+    entries = [s for s in cfg.succ.get(ifn, ()) if (id(ifn), id(s)) in _arm_edges(cfg, ifn, arm)]
+    nodes = _reach(cfg, entries)
+    if EXIT in entries:
+        return False
+    exits = [n for n in nodes if isinstance(n, ast.stmt) and EXIT in cfg.succ.get(n, ())]
+    return bool(exits) and all(isinstance(n, ast.Raise) or (isinstance(n, ast.Return) and returns_error(n, errs)) for n in exits)
+
+
+# ---- flow of one binding ---------------------------------------------------------------------------------------------------
+
+def _reached_reads(cfg: CFG, bind: ast.AST, name: str) -> list[tuple[ast.stmt, ast.Name]]:
+    """reads of `name` that the binding made by statement `bind` reaches (on paths that do not rebind the name); a rebinding
+    statement still evaluates its right-hand side with the old value"""
+    def rebinds(n: object) -> bool:
+        return n is not bind and name in _stores(n)
+
+    reach = cfg.reachable_from(bind, avoid=rebinds)
+    front = {s for n in reach for s in cfg.succ.get(n, ()) if rebinds(s)}
+    out = []
+    for s in [*reach, *front]:
+        if isinstance(s, ast.stmt) and s is not bind:
+            out += [(s, x) for x in walk_own(s) if isinstance(x, ast.Name) and x.id == name and isinstance(x.ctx, ast.Load)]
+    return out
+
+
+def _comprehension_reads(fn: ast.AST, gen: ast.comprehension, name: str) -> list[ast.Name]:
+    for n in ast.walk(fn):
+        if isinstance(n, (ast.ListComp, ast.SetComp, ast.GeneratorExp, ast.DictComp)) and any(g is gen for g in n.generators):
+            parts: list[ast.AST] = [n.key, n.value] if isinstance(n, ast.DictComp) else [n.elt]
+            for g in n.generators:
+                parts += g.ifs
+                if g is not gen:
+                    parts.append(g.iter)
+            return [x for p in parts for x in ast.walk(p) if isinstance(x, ast.Name) and x.id == name and isinstance(x.ctx, ast.Load)]
+    return []
+
+
+def _gated_uses(ix: Any, f: FuncInfo, cfgs: dict[str, CFG], producers: set[str], attrs: set[str], own_only: bool = False
+                ) -> tuple[bool, set[str], int, list[str]]:
+    """The results of calls to `producers` (component or error) in the region of f: (every read of one of `attrs` on such a result is
+    reachable from the producing statement only through the not-an-error side of an `isinstance(result, <Error>)` test whose error
+    side leaves the function with an error; the attributes read, also through private helpers the result is handed to; number of
+    producing statements; the reads that are not gated)."""
+    ok = True
+    read: set[str] = set()
+    n_prod = 0
+    ungated: list[str] = []
+    for g in ([f] if own_only else region(ix, f)):
+        lc = Locals(g.node)
+        roots = {nm for nm, ds in lc.defs.items() for k, _, v in ds if k.startswith("assign") and isinstance(v, ast.Call) and _is_call_to(v, producers)}
+        if not roots:
+            continue
+        results = set(roots)
+        changed = True
+        while changed:  # plain copies of the result (`param = param_or_error`)
+            changed = False
+            for nm, ds in lc.defs.items():
+                if nm not in results and any(k == "assign" and isinstance(v, ast.Name) and v.id in results for k, _, v in ds):
+                    results.add(nm)
+                    changed = True
+        cfg = cfg_of(g, cfgs)
+        errs = error_names(g.node) | results
+        producing = [s for s in cfg.stmts() if any(_is_call_to(c, producers) for c in _own_calls(s)) and _stores(s) & roots]
+        n_prod += len(producing)
+        gates = [(s, arm) for s in cfg.stmts() if isinstance(s, ast.If) for arm in _implied_arms(s.test, lambda a: _is_error_test(a, results))
+                 if _arm_ends_in_error(cfg, s, arm, errs)]
+        passable: set[tuple[int, int]] = set()
+        for s, arm in gates:
+            passable |= _arm_edges(cfg, s, "orelse" if arm == "body" else "body")
+        uses = [(s, x) for s in cfg.stmts() for x in walk_own(s) if isinstance(x, ast.Attribute) and isinstance(x.value, ast.Name)
+                and x.value.id in results and x.attr in attrs and isinstance(x.ctx, ast.Load)]
+        read |= {x.attr for _, x in uses}
+        # attributes read by a private helper that receives the result
+        for c in calls_in(g.node):
+            for h in region(ix, g, 1)[1:]:
+                if call_name(c).rsplit(".", 1)[-1] == h.name:
+                    pos = [p.arg for p in [*h.node.args.posonlyargs, *h.node.args.args] if p.arg not in ("self", "cls")]
+                    handed = {pos[i] for i, a in enumerate(c.args) if i < len(pos) and isinstance(a, ast.Name) and a.id in results}
+                    handed |= {k.arg for k in c.keywords if k.arg and isinstance(k.value, ast.Name) and k.value.id in results}
+                    read |= {x.attr for x in ast.walk(h.node) if isinstance(x, ast.Attribute) and isinstance(x.value, ast.Name) and x.value.id in handed
+                             and x.attr in attrs}
+        if not gates:
+            ok = False
+            ungated.append(f"no error test on the result of {sorted(producers)} in {g.name}")
+            continue
+        for p in producing:
+            before_gate = _reach(cfg, [p], passable, stop=lambda n, p=p: n is not p and n in producing)
+            for s, x in uses:
+                if s in before_gate and s is not p:
+                    ok = False
+                    ungated.append(f"{norm(x)} in {g.name}")
+    return ok and n_prod > 0, read, n_prod, sorted(set(ungated))
+
+
+# ---- chain loop ------------------------------------------------------------------------------------------------------------
+
+def _is_table(n: ast.AST, table: str) -> bool:
+    return isinstance(n, (ast.Name, ast.Attribute)) and isinstance(getattr(n, "ctx", None), ast.Load) and (dotted(n) or "").rsplit(".", 1)[-1] == table
+
+
+def _is_lookup(n: ast.AST, table: str) -> bool:
+    """`<table>.get(...)` or `<table>[...]`"""
+    if isinstance(n, ast.Call) and isinstance(n.func, ast.Attribute) and n.func.attr == "get" and _is_table(n.func.value, table):
+        return True
+    return isinstance(n, ast.Subscript) and isinstance(n.ctx, ast.Load) and _is_table(n.value, table)
+
+
+def _missing_when(a: ast.AST, got: set[str], table: str) -> bool | None:
+    """truth value of the atom under which the looked-up component is absent"""
+    def is_got(e: ast.AST) -> bool:
+        return (isinstance(e, ast.Name) and e.id in got) or _is_lookup(e, table) or (isinstance(e, ast.NamedExpr) and any(_is_lookup(x, table) for x in ast.walk(e.value)))
+
+    if is_got(a):
+        return False
+    if isinstance(a, ast.Compare) and len(a.ops) == 1:
+        op, right = a.ops[0], a.comparators[0]
+        if is_got(a.left) and isinstance(right, ast.Constant) and right.value is None:
+            if isinstance(op, (ast.Is, ast.Eq)):
+                return True
+            if isinstance(op, (ast.IsNot, ast.NotEq)):
+                return False
+        if _is_table(right, table):
+            if isinstance(op, ast.NotIn):
+                return True
+            if isinstance(op, ast.In):
+                return False
+    return None
+
+
+def _carried(lp: ast.stmt) -> set[str]:
+    """names the loop body (re)binds"""
+    return {x.id for s in lp.body for x in ast.walk(s) if isinstance(x, ast.Name) and isinstance(x.ctx, ast.Store)}
+
+
+def _stale_snapshot_reads(fn: ast.AST, lp: ast.stmt) -> list[str]:
+    """Reads, inside the loop, of a local that is bound only outside the loop from a variable the loop advances: the loop keeps
+    working with the value of the first round.  Reads inside the construction of an error value (diagnostic payload) do not steer the
+    loop and are not counted."""
+    carried = _carried(lp)
+    inside = {id(x) for part in [*lp.body, *([lp.test] if isinstance(lp, ast.While) else [])] for x in ast.walk(part)}
+    lc = Locals(fn)
+    snapshots: set[str] = set()
+    changed = True
+    while changed:
+        changed = False
+        for nm, ds in lc.defs.items():
+            if nm in carried or nm in snapshots or any(id(st) in inside for _, st, _ in ds):
+                continue
+            if any(v is not None and names_in(v) & (carried | snapshots) for _, _, v in ds):
+                snapshots.add(nm)
+                changed = True
+    diag = {id(x) for part in [*lp.body, *([lp.test] if isinstance(lp, ast.While) else [])] for c in ast.walk(part)
+            if isinstance(c, ast.Call) and call_name(c).rsplit(".", 1)[-1] in (ERROR_CLASSES | ERROR_ONLY_HELPERS) for x in ast.walk(c)}
+    out = []
+    for part in [*lp.body, *([lp.test] if isinstance(lp, ast.While) else [])]:
+        for x in ast.walk(part):
+            if isinstance(x, ast.Name) and isinstance(x.ctx, ast.Load) and x.id in snapshots and id(x) not in diag:
+                out.append("; ".join(f"{x.id} = {norm(v)[:40]}" for _, _, v in lc.defs[x.id] if v is not None))
+    return out
+
+
+# ---- the validator: conditions of its accepting paths --------------------------------------------------------------------------
+
+class _Expander:
+    """Rewrites a guard of the validator into and/or/not over atoms `parsed.<component>`: a local bound once reads as its definition,
+    `any((a, b))` is `a or b`, `all((a, b))` is `a and b`, `bool(a)` is `a`, `a == ""` is `not a`; the result of urlparse (however it
+    is named, or unpacked) reads as `parsed`."""
+
+    def __init__(self, lc: Locals, parsed_names: set[str], fields_of: dict[str, str]):
+        self.lc, self.parsed_names, self.fields_of = lc, parsed_names, fields_of
+
+    def __call__(self, e: ast.expr, depth: int = 0) -> ast.expr:
+        P = ast.Name(id="parsed", ctx=ast.Load())
+        if isinstance(e, ast.Name):
+            if e.id in self.fields_of:
+                return ast.Attribute(value=P, attr=self.fields_of[e.id], ctx=ast.Load())
+            if e.id in self.parsed_names:
+                return P
+            ds = self.lc.defs.get(e.id, [])
+            if len(ds) == 1 and ds[0][0] == "assign" and ds[0][2] is not None and depth < 4:
+                return self(ds[0][2], depth + 1)
+            return e
+        if isinstance(e, ast.Call) and call_name(e).rsplit(".", 1)[-1] in ("urlparse", "urlsplit"):
+            return P
+        if isinstance(e, ast.BoolOp):
+            return ast.BoolOp(op=e.op, values=[self(v, depth) for v in e.values])
+        if isinstance(e, ast.UnaryOp) and isinstance(e.op, ast.Not):
+            return ast.UnaryOp(op=ast.Not(), operand=self(e.operand, depth))
+        if isinstance(e, ast.Call) and isinstance(e.func, ast.Name) and e.func.id in ("any", "all") and len(e.args) == 1 and not e.keywords:
+            arg = self(e.args[0], depth) if isinstance(e.args[0], ast.Name) else e.args[0]
+            if isinstance(arg, (ast.Tuple, ast.List, ast.Set)) and arg.elts and not any(isinstance(x, ast.Starred) for x in arg.elts):
+                return ast.BoolOp(op=ast.Or() if e.func.id == "any" else ast.And(), values=[self(x, depth) for x in arg.elts])
+        if isinstance(e, ast.Call) and isinstance(e.func, ast.Name) and e.func.id == "bool" and len(e.args) == 1:
+            return self(e.args[0], depth)
+        if isinstance(e, ast.Compare) and len(e.ops) == 1 and isinstance(e.comparators[0], ast.Constant) and e.comparators[0].value == "" and \
+                isinstance(e.comparators[0].value, str):
+            inner = self(e.left, depth)
+            if isinstance(e.ops[0], ast.Eq):
+                return ast.UnaryOp(op=ast.Not(), operand=inner)
+            if isinstance(e.ops[0], ast.NotEq):
+                return inner
+        if isinstance(e, ast.Attribute):
+            return ast.Attribute(value=self(e.value, depth), attr=e.attr, ctx=ast.Load())
+        if isinstance(e, ast.Call):
+            c = copy.copy(e)
+            c.args = [self(a, depth) for a in e.args]
+            c.keywords = [ast.keyword(arg=k.arg, value=self(k.value, depth)) for k in e.keywords]
+            return c
+        return e
+
+
+def _return_paths(body: list[ast.stmt], cond: list[tuple[ast.expr, bool]], out: list, expand: _Expander) -> bool:
+    """(guards with the truth value they have on the path, returned value, return statement) of every return; the result says
+    whether the block always leaves the function.  A condition is only remembered where it certainly holds (structured code of a
+    small function); anything else is forgotten, which can only make a path look less constrained."""
+    cond = list(cond)
+    for st in body:
+        if isinstance(st, ast.If):
+            t = expand(st.test)
+            a = _return_paths(st.body, cond + [(t, True)], out, expand)
+            b = _return_paths(st.orelse, cond + [(t, False)], out, expand) if st.orelse else False
+            if a and b:
+                return True
+            if a:
+                cond.append((t, False))
+            elif b:
+                cond.append((t, True))
+        elif isinstance(st, ast.Return):
+            _value_paths(st.value, cond, out, expand, st)
+            return True
+        elif isinstance(st, ast.Raise):
+            return True
+        elif isinstance(st, ast.Try):
+            done = _return_paths([*st.body, *st.orelse], cond, out, expand)
+            for h in st.handlers:
+                done = _return_paths(h.body, cond, out, expand) and done
+            if st.finalbody and _return_paths(st.finalbody, cond, out, expand):
+                return True
+            if done:
+                return True
+        elif isinstance(st, (ast.For, ast.While, ast.With, ast.AsyncFor, ast.AsyncWith)):
+            _return_paths(st.body, cond, out, expand)
+            _return_paths(getattr(st, "orelse", []) or [], cond, out, expand)
+        elif isinstance(st, ast.Match):
+            for c in st.cases:
+                _return_paths(c.body, cond, out, expand)
+    return False
+
+
+def _value_paths(v: ast.expr | None, cond: list[tuple[ast.expr, bool]], out: list, expand: _Expander, st: ast.Return) -> None:
+    if isinstance(v, ast.IfExp):
+        t = expand(v.test)
+        _value_paths(v.body, cond + [(t, True)], out, expand, st)
+        _value_paths(v.orelse, cond + [(t, False)], out, expand, st)
+    else:
+        out.append((list(cond), v, st))
+
+
+def _is_error_value(v: ast.expr | None, errs: set[str]) -> bool:
+    return v is not None and returns_error(ast.Return(value=v), errs)
+
+
+def _possibly_true(cond: list[tuple[ast.expr, bool]], wanted: list[str]) -> tuple[set[str], set[str]]:
+    """(those of `wanted` atoms that can be true on a path with these guards - an atom no guard mentions can; the atoms of the
+    guards that are not among `wanted`)"""
+    atoms: list[str] = []
+    for t, _ in cond:
+        for a in _atom_nodes(t):
+            if norm(a) not in atoms:
+                atoms.append(norm(a))
+    other = {a for a in atoms if a not in wanted}
+    if len(atoms) > 14:
+        return set(wanted), other
+    can = {w for w in wanted if w not in atoms}
+    for vals in itertools.product([False, True], repeat=len(atoms)):
+        env = dict(zip(atoms, vals))
+        if all(bool_eval(t, env) is pol for t, pol in cond):
+            can |= {w for w in wanted if env.get(w)}
+    return can, other
+
+
+# ---- reference strings, lazily filled fields, document model -------------------------------------------------------------------
+
+def _anchored_suffix(e: ast.AST, f: FuncInfo, lc: Locals, depth: int = 0) -> bool:
+    """the suffix a reference string is compared with starts at a path-segment boundary: a text beginning with `/` (or `#/`), or a whole
+    validated reference path (a parameter declared ReferencePath, the result of parse_reference_path)"""
+    if isinstance(e, ast.Constant):
+        return isinstance(e.value, str) and e.value.startswith(("/", "#/"))
+    if isinstance(e, ast.JoinedStr):
+        return bool(e.values) and isinstance(e.values[0], ast.Constant) and str(e.values[0].value).startswith(("/", "#/"))
+    if isinstance(e, ast.BinOp) and isinstance(e.op, ast.Add):
+        return _anchored_suffix(e.left, f, lc, depth)
+    if isinstance(e, ast.Tuple):
+        return bool(e.elts) and all(_anchored_suffix(x, f, lc, depth) for x in e.elts)
+    if isinstance(e, ast.Call) and call_name(e).rsplit(".", 1)[-1] in ("parse_reference_path", "ReferencePath"):
+        return True
+    if isinstance(e, ast.Call) and call_name(e) == "cast" and len(e.args) == 2 and norm(e.args[0]).endswith("ReferencePath"):
+        return True
+    if isinstance(e, ast.Name):
+        for p in f.params:
+            if p.arg == e.id:
+                return p.annotation is not None and "ReferencePath" in norm(p.annotation)
+        vs = lc.values_of(e.id)
+        return depth < 3 and bool(vs) and all(k == "assign" for k, _, _ in lc.defs[e.id]) and all(_anchored_suffix(v, f, lc, depth + 1) for v in vs)
+    return False
+
+
+def _optional_container(ann: ast.AST) -> bool:
+    import re
+
+    toks = set(re.findall(r"[A-Za-z_]+", norm(ann)))
+    return bool(toks & {"None", "Optional"}) and bool(toks & {"list", "set", "dict", "tuple", "frozenset", "List", "Set", "Dict", "Tuple", "FrozenSet"})
+
+
+def _truth_of_field(a: ast.AST, fields: set[str]) -> bool:
+    """the atom is the truth value (or the length) of one of the fields"""
+    if isinstance(a, ast.Attribute):
+        return a.attr in fields
+    if isinstance(a, ast.Call) and isinstance(a.func, ast.Name) and a.func.id in ("bool", "len") and len(a.args) == 1:
+        return _truth_of_field(a.args[0], fields)
+    if isinstance(a, ast.Compare) and len(a.ops) == 1 and isinstance(a.left, ast.Call) and isinstance(a.left.func, ast.Name) and a.left.func.id == "len":
+        return _truth_of_field(a.left, fields)
+    if isinstance(a, ast.Call) and isinstance(a.func, ast.Name) and a.func.id in ("any", "all") and len(a.args) == 1 and isinstance(a.args[0], (ast.Tuple, ast.List)):
+        return any(_truth_of_field(x, fields) for x in a.args[0].elts)
+    return False
+
+
+def _type_positions(tree: ast.Module) -> Iterable[tuple[str, str, ast.expr]]:
+    """(owner prefix, name, type expression) of every class field annotation and every module-level type alias"""
+    for st in tree.body:
+        if isinstance(st, ast.ClassDef):
+            for b in st.body:
+                if isinstance(b, ast.AnnAssign) and isinstance(b.target, ast.Name):
+                    yield f"{st.name}.", b.target.id, b.annotation
+        elif isinstance(st, ast.AnnAssign) and isinstance(st.target, ast.Name) and st.value is not None:
+            yield "", st.target.id, st.value
+        elif isinstance(st, ast.Assign) and len(st.targets) == 1 and isinstance(st.targets[0], ast.Name) and isinstance(st.value, (ast.Subscript, ast.BinOp)):
+            yield "", st.targets[0].id, st.value
+
+
+def _type_names(ann: ast.AST, discriminated: bool = False) -> list[tuple[str, bool]]:
+    """(class name, inside an Annotated[...] that carries a Discriminator) of every name in a type expression; quoted forward
+    references are read as the expressions they stand for"""
+    out: list[tuple[str, bool]] = []
+    if isinstance(ann, ast.Subscript) and (dotted(ann.value) or "").rsplit(".", 1)[-1] == "Annotated":
+        parts = list(ann.slice.elts) if isinstance(ann.slice, ast.Tuple) else [ann.slice]
+        here = discriminated or any(isinstance(c, ast.Call) and call_name(c).rsplit(".", 1)[-1] == "Discriminator" for x in parts[1:] for c in ast.walk(x))
+        return _type_names(parts[0], here) if parts else out
+    if isinstance(ann, ast.Constant) and isinstance(ann.value, str):
+        try:
+            return _type_names(ast.parse(ann.value, mode="eval").body, discriminated)
+        except SyntaxError:
+            return out
+    if isinstance(ann, (ast.Name, ast.Attribute)):
+        d = dotted(ann)
+        return [(d.rsplit(".", 1)[-1], discriminated)] if d else out
+    for ch in ast.iter_child_nodes(ann):
+        out += _type_names(ch, discriminated)
+    return out
